@@ -22,16 +22,17 @@ import (
 //   - "log": plain build. Every hook appends an event to one mutex-protected
 //     log with the goroutine id; the orchestrator checks the log offline.
 var c13 struct {
-	mode   string
-	parkAt string // "", dirty2, wal, miss
-	parkMs int
-	dirtyN int // markDirty calls of the current statement (session goroutine only)
-	parked bool
-	inStmt bool
-	mu     sync.Mutex
-	seq    int
-	events []proto.Event
-	stmtNo int
+	mode       string
+	parkAt     string // "", dirty2, wal, miss
+	parkMs     int
+	slowWrites int
+	dirtyN     int // markDirty calls of the current statement (session goroutine only)
+	parked     bool
+	inStmt     bool
+	mu         sync.Mutex
+	seq        int
+	events     []proto.Event
+	stmtNo     int
 }
 
 func goid() int64 {
@@ -75,6 +76,7 @@ func init() {
 	// goroutine exists.
 	ops["c13setup"] = func(op *proto.Op, res *proto.Res) error {
 		c13.mode = op.S
+		c13.slowWrites = op.N // log mode: milliseconds every page write takes
 		switch op.S {
 		case "race":
 			storage.VerifMarkDirty = func(off, lsn uint64) {
@@ -103,7 +105,14 @@ func init() {
 			storage.VerifWalSync = func() { c13log("walSync", 0) }
 			storage.VerifWalDone = func() { c13log("walDone", 0) }
 			storage.VerifFetchMiss = func(off uint64) { c13park("miss") }
-			storage.VerifPageWrite = func(off uint64) { c13log("pageWrite", off) }
+			storage.VerifPageWrite = func(off uint64) {
+				c13log("pageWrite", off)
+				if c13.slowWrites > 0 {
+					// a slow disk: keeps the span in which pages are being
+					// written open for the statements that follow
+					time.Sleep(time.Duration(c13.slowWrites) * time.Millisecond)
+				}
+			}
 			storage.VerifHeaderWrite = func() { c13log("headerWrite", 0) }
 			storage.VerifFlushBegin = func() { c13log("flushBegin", 0) }
 			storage.VerifFlushEnd = func() { c13log("flushEnd", 0) }
